@@ -53,7 +53,8 @@ MN_POOL = ['nop', 'ld', 'ld.b', 'ldx', 'ldi', 'st', 'st.w', 'add', 'addc', 'jmp'
            'x1', 'mov2', 'ADD2', 'Sub', '_nop', 'st_', 'ld_x', 'j_']
 MACRO_POOL = ['push2', 'ldw', 'mov3', 'inc2', 'clr', 'jsr', 'ldq.w', 'pushx', 'po', 'jmp.far', 'cl', 'Clr2', '_save',
               'rest_', 'm_x']
-REG_POOL = ['a', 'b', 'x', 'ab', 'sp', 'a1', 'ix', 'mar', 'r0', 'r1', 'hl', 'h', 'r10', 'A2', 'abx', '_r', 'r_', 'x_1']
+REG_POOL = ['a', 'b', 'x', 'ab', 'sp', 'a1', 'ix', 'mar', 'r0', 'r1', 'hl', 'h', 'r10', 'A2', 'abx', '_r', 'r_', 'x_1', 'b0', 'b10',
+            'AH', 'DH', 'c0']
 DESCRIPTIONS = ['vocab ISA', 'A CPU: the "best" one', 'line one\nline two: with colon\n# not a comment', 'tabs\tand \'quotes\'',
                 'multi\n\nparagraph\n', '', 'x' * 90, 'key: value', '- list item', '%YAML in text', '{braces} [brackets]']
 INSTR_SCOPE = 'variable.function.instruction'
@@ -141,22 +142,27 @@ def build_world(case):
     name = 'isa.' + fmt
     sched = case.get('sched', {})
     argv = ['bespokeasm', 'generate-extension', case['target'], '-c', name, '-d', OUT] + list(case.get('opts', []))
-    w = {'files': {f'{PDIR}/{name}': gen.isa_text(isa, fmt)}, 'dirs': [OUT, '/sim/home', '/sim/tmp'],
+    pre = case.get('_state') or {}
+    files = dict(pre.get('files', {}))
+    files[f'{PDIR}/{name}'] = gen.isa_text(isa, fmt)
+    w = {'files': files, 'dirs': list(pre.get('dirs', [])) + ([] if case.get('no_out_dir') else [OUT]) + [
+            '/sim/home', '/sim/tmp'],
          'argv': argv, 'cwd': PDIR, 'env': {'HOME': '/sim/home'}, 'epoch': sched.get('epoch', 1.7e9),
          'set_seed': sched.get('set_seed'), 'list_seed': sched.get('list_seed'),
-         'tmp_names': sched.get('tmp_names', []), 'step_budget': 6_000_000}
+         'tmp_names': sched.get('tmp_names', []), 'step_budget': 6_000_000, 'faults': list(case.get('faults', []))}
     return w
 
 
 # ---- grammar oracle --------------------------------------------------------------------------------
 class Rule:
-    __slots__ = ('name', 'scope', 'rx', 'nested')
+    __slots__ = ('name', 'scope', 'rx', 'nested', 'inner')
 
-    def __init__(self, name, scope, pattern, nested=None):
+    def __init__(self, name, scope, pattern, nested=None, inner=None):
         self.name = name
         self.scope = scope
         self.rx = re.compile(pattern)
-        self.nested = nested or []
+        self.nested = nested or []      # preprocessor line: rules applied right after the '#'
+        self.inner = inner or []        # instruction / macro: rules applied to the operands
 
 
 def vscode_rules(grammar):
@@ -172,11 +178,14 @@ def vscode_rules(grammar):
         if 'begin' in pat:
             scope = pat.get('beginCaptures', {}).get('0', {}).get('name') or pat.get('beginCaptures', {}).get(
                 '1', {}).get('name') or pat.get('name')
-            nested = []
+            nested, inner = [], []
             if pat.get('name') == 'meta.preprocessor':
                 for p in pat.get('patterns', []):
                     nested.extend(conv(p, depth + 1))
-            out.append(Rule(pat.get('name', '?'), scope, pat['begin'], nested))
+            elif pat.get('name') == 'meta.function' and depth <= 1:
+                for p in pat.get('patterns', []):
+                    inner.extend(conv(p, depth + 2))
+            out.append(Rule(pat.get('name', '?'), scope, pat['begin'], nested, inner))
         elif 'match' in pat:
             out.append(Rule(pat.get('name', '?'), pat.get('name'), pat['match']))
         elif 'patterns' in pat:
@@ -199,10 +208,12 @@ def sublime_rules(syntax):
                 if it['include'] in ctx and depth < 4:
                     out.extend(conv(ctx[it['include']], depth + 1))
             elif 'match' in it:
-                nested = []
+                nested, inner = [], []
                 if it.get('scope') == 'punctuation.definition.preprocessor' and isinstance(it.get('push'), list):
                     nested = conv(it['push'], depth + 1)
-                out.append(Rule(it.get('scope', '?'), it.get('scope'), it['match'], nested))
+                elif it.get('scope') in (INSTR_SCOPE, MACRO_SCOPE) and isinstance(it.get('push'), list) and depth <= 1:
+                    inner = conv(it['push'], depth + 2)
+                out.append(Rule(it.get('scope', '?'), it.get('scope'), it['match'], nested, inner))
         return out
     return conv(ctx['main'])
 
@@ -225,6 +236,31 @@ def classify(rules, text, pos=0):
         if inner is not None:
             return inner
     return (r.scope, m.group(0), m.start())
+
+
+def first_match(rules, text, pos):
+    best = None
+    for order, r in enumerate(rules):
+        for m in r.rx.finditer(text, pos):
+            if m.end() == m.start():
+                continue            # zero-width (look-ahead pop rules)
+            key = (m.start(), order)
+            if best is None or key < best[0]:
+                best = (key, r, m)
+            break
+    return best
+
+
+def classify_operand(rules, mnemonic, operand):
+    """scope of `operand` when it is written as the operand of `mnemonic`"""
+    text = f'{mnemonic} {operand}'
+    top = first_match(rules, text, 0)
+    if top is None or top[1].scope not in (INSTR_SCOPE, MACRO_SCOPE) or not top[1].inner:
+        return None
+    inner = first_match(top[1].inner, text, top[2].end())
+    if inner is None:
+        return None
+    return (inner[1].scope, inner[2].group(0), inner[2].start() - len(mnemonic) - 1)
 
 
 def near_misses(word, vocab_lower):
@@ -254,8 +290,21 @@ def check_grammar(rules, vocab, target):
         expect(w.upper(), INSTR_SCOPE, 'instruction')
     for w in vocab['macros']:
         expect(w, MACRO_SCOPE, 'macro')
-    for w in vocab['registers']:
-        expect(w, REG_SCOPE, 'register')
+    # registers are probed where registers occur: in operand position (the rule order inside an instruction's
+    # operand context is part of the grammar); a register alone on a line is probed only when no instruction can
+    # carry it (it is not valid assembly, and the Sublime main context deliberately tries numbers first)
+    carriers = [m for m in vocab['instructions'] if '.' not in m][:2]
+    if not carriers and target == 'vscode':
+        for w in vocab['registers']:
+            expect(w, REG_SCOPE, 'register')
+    for mn in carriers:
+        for w in vocab['registers']:
+            if w.lower() == mn.lower():
+                continue
+            res = classify_operand(rules, mn, w)
+            if res is None or res[0] != REG_SCOPE or res[1].lower() != w.lower() or res[2] != 0:
+                v.append('CL-register-operand-not-classified-in-full')
+                detail.append((f'{mn} {w}', res, 'register-operand'))
     for d in COMPILER_DIRECTIVES:
         expect('.' + d, DIR_SCOPE, 'directive')
     for d in BYTECODE_DIRECTIVES:
@@ -439,6 +488,8 @@ def check_case(case):
         v, detail = check_outputs(files, case, isa)
         obs['detail'] = detail
         return {'violations': v, 'observed': obs, 'result': None, 'files': files}
+    if case.get('prior'):
+        return check_two_runs(case)
     w = build_world(case)
     r = child.run_world(w)
     obs = {'kind': r['kind'], 'exit': r['exit'], 'exc': (r.get('exc') or '')[:200], 'gaps': r.get('gaps', []),
@@ -455,6 +506,71 @@ def check_case(case):
     v, detail = check_outputs(r['files'], case, isa)
     obs['detail'] = detail
     return {'violations': v, 'observed': obs, 'result': r}
+
+
+def generated_outputs(files, target):
+    """the generated package as comparable content: {name: text}; zip members are unpacked (timestamps ignored)"""
+    out = {}
+    for p, c in files.items():
+        if not p.startswith(OUT + '/'):
+            continue
+        if p.endswith('.sublime-package'):
+            try:
+                zf = zipfile.ZipFile(io.BytesIO(c.encode('latin-1')))
+                # member order follows the (arbitrary) listing order of a fresh temporary directory: not compared
+                out[p] = sorted((i.filename, zf.read(i.filename).decode('latin-1')) for i in zf.infolist())
+            except Exception as e:
+                out[p] = f'invalid zip: {e}'
+        else:
+            out[p] = c
+    return out
+
+
+def check_two_runs(case):
+    """History of two generator runs sharing one file system: an earlier run (possibly failing, possibly for another or
+    a bigger ISA) leaves files behind; the second run must produce exactly what it produces on a pristine file system."""
+    prior = dict(case['prior'])
+    c1 = {k: v for k, v in case.items() if k not in ('prior', '_state')}
+    c1.update(prior)
+    c1.pop('prior', None)
+    r1 = child.run_world(build_world(c1))
+    obs = {'prior': {'kind': r1['kind'], 'exit': r1['exit'], 'exc': (r1.get('exc') or '')[:120],
+                     'fired': [f['kind'] for f in r1.get('fired', [])]}}
+    if r1['kind'] in ('crash', 'wall_timeout') or r1.get('gaps'):
+        return {'violations': [], 'observed': obs, 'result': r1}
+    state = {'files': {p: c for p, c in r1['files'].items() if not p.startswith(PDIR + '/')},
+             'dirs': [d for d in r1.get('dirs', []) if d.startswith('/sim/') and d != PDIR]}
+    c2 = {k: v for k, v in case.items() if k != 'prior'}
+    c2['_state'] = state
+    r2 = child.run_world(build_world(c2))
+    c0 = {k: v for k, v in case.items() if k not in ('prior', '_state')}
+    r0 = child.run_world(build_world(c0))
+    obs.update({'kind': r2['kind'], 'exit': r2['exit'], 'exc': (r2.get('exc') or '')[:160],
+                'pristine': {'kind': r0['kind'], 'exit': r0['exit']}, 'gaps': r2.get('gaps', []) + r0.get('gaps', [])})
+    v = []
+    if r2['kind'] in ('crash', 'wall_timeout') or r0['kind'] in ('crash', 'wall_timeout'):
+        return {'violations': v, 'observed': obs, 'result': r2}
+    ok0 = r0['kind'] == 'exit' and r0['exit'] == 0
+    ok2 = r2['kind'] == 'exit' and r2['exit'] == 0
+    if not ok0:
+        return {'violations': v, 'observed': obs, 'result': r2, 'discard': 'pristine run fails'}
+    if not ok2:
+        v.append('ST-run-fails-because-of-leftovers-of-earlier-run')
+        return {'violations': v, 'observed': obs, 'result': r2}
+    isa = effective_isa(case)
+    mine_paths = {p for p in r0['files'] if p.startswith(OUT + '/')}
+    wf, detail = check_outputs({p: c for p, c in r2['files'].items() if p in mine_paths}, case, isa)
+    wf = [x for x in wf if x != 'WF-temporary-files-left-behind']
+    v += wf
+    if detail:
+        obs['detail'] = {k: detail[k] for k in list(detail)[:3]}
+    mine0 = generated_outputs(r0['files'], case['target'])
+    mine2 = {p: c for p, c in generated_outputs(r2['files'], case['target']).items() if p in mine0}
+    if mine0 != mine2:
+        v.append('ST-output-depends-on-leftovers-of-earlier-run')
+        diff = [p for p in mine0 if mine0[p] != mine2.get(p)]
+        obs['differing_files'] = [os.path.basename(p) for p in diff][:4]
+    return {'violations': sorted(set(v)), 'observed': obs, 'result': r2}
 
 
 def shrink_paths(case):
@@ -591,6 +707,44 @@ def explore(subseed, cfg):
                         alts = m.group(1).split('|')
                         if 'if' in alts and 'ifdef' in alts and alts.index('if') < alts.index('ifdef'):
                             pr['if_ordered_before_ifdef'] = pr.get('if_ordered_before_ifdef', 0) + 1
+        # histories of two runs sharing the file system
+        for _ in range(cfg.get('two_run', 2)):
+            mode = rnd.choice(['prior-bigger-same-name', 'prior-fails-no-out-dir', 'prior-io-fault', 'prior-other-isa'])
+            c = dict(copy.deepcopy(base), target=target, sched=gen_sched(rnd))
+            if mode == 'prior-bigger-same-name':
+                big = copy.deepcopy(isa)
+                for j in range(4):
+                    big['instructions'][f'zz{j}x'] = {'bytecode': {'value': 200 + j, 'size': 8}}
+                big['description'] = (big.get('description') or '') + ' (earlier, longer revision of this ISA) ' * 3
+                c['prior'] = {'isa': big, 'instr_keep': list(big['instructions'])}
+            elif mode == 'prior-fails-no-out-dir':
+                other = gen_vocab_isa(rnd)
+                c['prior'] = {'isa': other, 'instr_keep': list(other['instructions']),
+                              'macro_keep': list(other.get('macros', {})), 'no_out_dir': True}
+            elif mode == 'prior-io-fault':
+                other = gen_vocab_isa(rnd)
+                c['prior'] = {'isa': other, 'instr_keep': list(other['instructions']),
+                              'macro_keep': list(other.get('macros', {})),
+                              'faults': [{'at': rnd.randrange(2, 40), 'kind': rnd.choice(
+                                  ['open_enospc', 'write_enospc_after', 'open_eacces', 'close_eio']), 'k': 10}]}
+            else:
+                other = gen_vocab_isa(rnd)
+                c['prior'] = {'isa': other, 'instr_keep': list(other['instructions']),
+                              'macro_keep': list(other.get('macros', {}))}
+            res = check_case(c)
+            out['runs'] += 3
+            out['evaluations'] += 1
+            pr['two_run_' + mode] = pr.get('two_run_' + mode, 0) + 1
+            if res['observed'].get('prior', {}).get('exit') not in (0,):
+                pr['two_run_prior_failed'] = pr.get('two_run_prior_failed', 0) + 1
+            for f in res['observed'].get('prior', {}).get('fired', []):
+                out['faults_fired'][f] = out['faults_fired'].get(f, 0) + 1
+            if res['observed'].get('gaps'):
+                out['harness'].append(f'HARNESS-GAP {res["observed"]["gaps"][:2]}')
+                continue
+            for vv in res['violations']:
+                out['violations'].append({'case': c, 'class': vv, 'group': target + ':two-run'})
+            out['distinct'].add(H((vd, target, 'two-run', mode, str(c['prior'].get('faults')))) & 0xFFFFFFFFFFFF)
         if (subseed & 0xFFFFFFFF) % cfg.get('xproc_every', 6) == 0:
             for hs in [0] + rnd.sample(range(1, 3000), cfg.get('hashseeds', 3) - 1):
                 c = dict(copy.deepcopy(base), target=target, sched={'hashseed': hs})
